@@ -1074,7 +1074,13 @@ impl EntryScanner<'_> {
             match self.zonefile.buf.next_symbol()? {
                 None => {
                     self.zonefile.buf.next_item()?;
-                    self.zonefile.buf.buf[start] = (*write - start - 1) as u8;
+                    // The length octet goes where the white space before
+                    // the string was. There is none if an empty string is
+                    // the very last thing in the buffer.
+                    match self.zonefile.buf.buf.get_mut(start) {
+                        Some(len) => *len = (*write - start - 1) as u8,
+                        None => return Err(EntryError::short_buf()),
+                    }
                     return Ok(());
                 }
                 Some(sym) => {
